@@ -196,8 +196,9 @@ Variants(U, t) ==
 (* operand types in textual order; x carries the non-operand parts that    *)
 (* the rule needs (absent fields are simply not present in the record):    *)
 (*    x.to  target type of a cast          x.ty  explicit type (load, phi, *)
-(*    x.idx index path (0-based) of         va_arg, landingpad, alloca)    *)
-(*          extractvalue / insertvalue     x.as  address space of alloca   *)
+(*    x.idx index path (0-based) of         va_arg, landingpad, alloca,    *)
+(*          extractvalue / insertvalue           getelementptr source)     *)
+(*    x.gidx getelementptr index records   x.as  address space of alloca   *)
 (* Resolve(U, t) looks through an identified struct to its body (needed    *)
 (* only to step into aggregates; identity never unfolds).                  *)
 (***************************************************************************)
@@ -232,31 +233,7 @@ CastKinds    == {"trunc", "zext", "sext", "fptrunc", "fpext", "fptoui", "fptosi"
 CallKinds    == {"call", "invoke", "callbr"}
 TokenKinds   == {"catchpad", "cleanuppad", "catchswitch"}
 
-ResultType(U, kind, ops, x) ==
-  CASE kind \in UnaryKinds \cup IntBinKinds \cup FPBinKinds -> ops[1]
-    [] kind \in {"icmp", "fcmp"}      -> CmpResult(ops[1])
-    [] kind = "extractelement"        -> ops[1].e
-    [] kind = "insertelement"         -> ops[1]
-       \* <v1, v2, mask>: the mask's length and scalability, the operands' element type
-    [] kind = "shufflevector"         -> TVec(ops[3].sc, ops[3].n, ops[1].e)
-    [] kind = "extractvalue"          -> AggPath(U, ops[1], x.idx)
-    [] kind = "insertvalue"           -> ops[1]
-    [] kind = "alloca"                -> TPtr(x.ty, x.as)
-    [] kind = "load"                  -> x.ty
-       \* <ptr, cmp, new>
-    [] kind = "cmpxchg"               -> TStruct(FALSE, <<ops[3], I1>>)
-       \* <ptr, val>
-    [] kind = "atomicrmw"             -> ops[2]
-    [] kind \in CastKinds             -> x.to
-    [] kind = "phi"                   -> x.ty
-       \* <cond, a, b>
-    [] kind = "select"                -> ops[2]
-    [] kind = "freeze"                -> ops[1]
-       \* <callee, args...>
-    [] kind \in CallKinds             -> CalleeSig(ops[1]).ret
-    [] kind = "va_arg"                -> x.ty
-    [] kind = "landingpad"            -> x.ty
-    [] kind \in TokenKinds            -> TToken
+\* ResultType itself is defined at the end of the module (it uses GepResultType).
 
 ----------------------------------------------------------------------------
 (***************************************************************************)
@@ -344,4 +321,34 @@ GepResultTypeAsImplemented(U, elem, base, idxs, classifierSeesType) ==
       r == W(elem, BaseShape(base)[1], idxs, TRUE)
       p == TPtr(r[1], BasePtr(base).as)
   IN IF r[2] = 0 THEN p ELSE TVec(FALSE, r[2], p)
+----------------------------------------------------------------------------
+(* The result-type rule (see RESULT TYPES above) *)
+ResultType(U, kind, ops, x) ==
+  CASE kind \in UnaryKinds \cup IntBinKinds \cup FPBinKinds -> ops[1]
+    [] kind \in {"icmp", "fcmp"}      -> CmpResult(ops[1])
+    [] kind = "extractelement"        -> ops[1].e
+    [] kind = "insertelement"         -> ops[1]
+       \* <v1, v2, mask>: the mask's length and scalability, the operands' element type
+    [] kind = "shufflevector"         -> TVec(ops[3].sc, ops[3].n, ops[1].e)
+    [] kind = "extractvalue"          -> AggPath(U, ops[1], x.idx)
+    [] kind = "insertvalue"           -> ops[1]
+    [] kind = "alloca"                -> TPtr(x.ty, x.as)
+    [] kind = "load"                  -> x.ty
+       \* <base, index types...>; x.ty the source element type, x.gidx the index records
+       \* (section GETELEMENTPTR above; the index forms are studied in depth by C07)
+    [] kind = "getelementptr"         -> GepResultType(U, x.ty, ops[1], x.gidx)
+       \* <ptr, cmp, new>
+    [] kind = "cmpxchg"               -> TStruct(FALSE, <<ops[3], I1>>)
+       \* <ptr, val>
+    [] kind = "atomicrmw"             -> ops[2]
+    [] kind \in CastKinds             -> x.to
+    [] kind = "phi"                   -> x.ty
+       \* <cond, a, b>
+    [] kind = "select"                -> ops[2]
+    [] kind = "freeze"                -> ops[1]
+       \* <callee, args...>
+    [] kind \in CallKinds             -> CalleeSig(ops[1]).ret
+    [] kind = "va_arg"                -> x.ty
+    [] kind = "landingpad"            -> x.ty
+    [] kind \in TokenKinds            -> TToken
 =============================================================================
